@@ -47,7 +47,7 @@ def rule(tier):
 def floors(tier):
     z = sizes(tier)
     return {"evaluations": z["N"] * 2, "distinct": z["N"],
-            "counters": {"codec_values": z["N"] * 2 + z["P"], "doc_cells_compared": z["docs"] * 50, "docs_saved": z["docs"] // 2, "docs_saved_twice": z["docs"] // 8,
+            "counters": {"codec_values": z["N"] * 2 + z["P"], "doc_cells_compared": z["docs"] * 50, "docs_saved": z["docs"] // 2, "docs_saved_twice": z["docs"] // 8, "docs_with_a_merged_region": z["docs"] // 6, "docs_with_a_merged_region_beyond_row_256": 3,
                          "docs_grown_by_write": 5, "docs_multi_tile": 5, "docs_wide": 3, "package_saves": 5,
                          "contract:d128_exact.pack": z["N"], "contract:d128_exact.unpack": z["N"],
                          "type:str": 500, "type:bool": 100, "type:int": 500, "type:float": 500, "type:datetime": 300, "type:timedelta": 300}}
@@ -179,6 +179,7 @@ def doc_case(case, rec):
         return
     ncells = min(case["cells"], rows * cols)
     pos = positions(rng, rows, cols, ncells, grow)
+    merged_pair = set()
     written = {}
     kinds = case.get("kinds", "sbifdt")
     mid = len(pos) // 2 if case.get("resave") else -1
@@ -218,6 +219,26 @@ def doc_case(case, rec):
         written[(r, c)] = (v, pclass)
     exp_rows = max([rows] + [r + 1 for r, c in written])
     exp_cols = max([cols] + [c + 1 for r, c in written])
+    # a merged region next to the written cells (none of them inside it) - in a tall table beyond the first 256 rows:
+    # what is stored about a neighbouring region must not change what a written cell reads back
+    if table.num_cols >= 2 and rng.random() < .5:
+        from vf.ref import a1
+        lo = 256 if table.num_rows > 258 else 0
+        for _ in range(30):
+            mr, mc = rng.randrange(lo, table.num_rows), rng.randrange(table.num_cols - 1)
+            if (mr, mc) not in written and (mr, mc + 1) not in written:
+                try:
+                    with warnings.catch_warnings():
+                        warnings.simplefilter("ignore")
+                        table.merge_cells(a1.cell_name(mr, mc) + ":" + a1.cell_name(mr, mc + 1))
+                    rec.count("docs_with_a_merged_region")
+                    if mr >= 256:
+                        rec.count("docs_with_a_merged_region_beyond_row_256")
+                    merged_pair = {(mr, mc), (mr, mc + 1)}
+                except Exception as e:  # noqa: BLE001
+                    rec.violation("merge_raised", {"exc": type(e).__name__}, {"msg": str(e)[:200]}, case=case)
+                    return
+                break
     if (table.num_rows, table.num_cols) != (exp_rows, exp_cols):
         rec.violation("growth_size", {"shape": name}, {"got": [table.num_rows, table.num_cols], "want": [exp_rows, exp_cols]}, case=case)
     d = docs.scratch_dir()
@@ -242,6 +263,8 @@ def doc_case(case, rec):
             for c, cell in enumerate(row):
                 ent = written.get((r, c))
                 if ent is None:
+                    if (r, c) in merged_pair:
+                        continue
                     if cell.value is not None or type(cell).__name__ != "EmptyCell":
                         nonempty_elsewhere += 1
                         if nonempty_elsewhere <= 2:
